@@ -44,6 +44,9 @@ def instances(tier, seed):
             g = "core" if i < n else "ext"
             out.append((g, dict(cat=c, arrtype=a, dims=d, route=r)))
     out.append(("core", dict(cat="AbstractArray", arrtype="base", dims="", route="pickle")))
+    for d in ("a", "*v", "a b"):
+        for order in (0, 1):
+            out.append(("core", dict(cat="Shaped", arrtype="pair", dims=d, route="pickle", order=order)))
     return out
 
 
@@ -118,6 +121,8 @@ def scenario(inst, V):
         r = pickle.loads(pickle.dumps(jt.AbstractArray))
         V.check("roundtrip-verdict", r is jt.AbstractArray)
         return dict(base=True)
+    if inst["arrtype"] == "pair":
+        return scenario_pair(inst, V)
     try:
         ann = build(inst)
     except ValueError:
@@ -173,6 +178,36 @@ def scenario(inst, V):
         if g0 == g2 and b2 is not None:
             compare.check_unchanged(V, "roundtrip-bindings", b0, b2)
     return dict(route=route, verdicts=[str(g) for g, _ in before])
+
+
+def scenario_pair(inst, V):
+    """Two annotations with the same outer category, array type and flattened dim string but
+    different effective dtypes are both reconstructed in this process; each reconstruction
+    must keep its own meaning whatever the order of loading."""
+    import jaxtyping as jt
+    from jaxtyping import jaxtyped
+    d = inst["dims"]
+    narrow = jt.Shaped[jt.Float32[FakeArr, "c"], d]
+    wide = jt.Shaped[FakeArr, (d + " c").strip()]
+    blobs = [pickle.dumps(narrow), pickle.dumps(wide)]
+    order = [0, 1] if inst["order"] == 0 else [1, 0]
+    loaded = {}
+    for i in order:
+        loaded[i] = pickle.loads(blobs[i])
+    rank = V.choose("rank", 4)
+    shape = [V.int(f"s{i}", 0) for i in range(rank)]
+    dt = DTYPES[V.choose("dt", len(DTYPES))]
+    for i, orig in ((0, narrow), (1, wide)):
+        res = []
+        for a in (orig, loaded[i]):
+            with jaxtyped("context"):
+                res.append(c01.observe_check(FakeArr(tuple(shape), dt), a))
+        V.check("roundtrip-verdict", res[0] == res[1], original=str(res[0]), reconstructed=str(res[1]), dtype=dt,
+                which=("narrow", "wide")[i], order=inst["order"])
+        if res[0] in (0, 1):
+            V.reach("ACC" if res[0] == 0 else "REJ")
+    V.reach("route-pickle")
+    return dict(pair=True)
 
 
 CHILD = r'''
